@@ -59,6 +59,9 @@ func w1MetricStorage() *metajournal.MetricsStorage {
 	for i, d := range defs {
 		mv := format.MetricMetaValue{MetricID: d.id, Name: w1MetricNames[d.id], Kind: d.kind, Resolution: 1, Weight: 1,
 			Version: int64(i + 1), Tags: []format.MetricMetaTag{{}, {Name: d.tag, RawKind: "int"}}}
+		if d.id != w1MetricMarker { // tag layouts of the shared keys: 2 and 3 are string tags, 4 is a second raw int tag
+			mv.Tags = append(mv.Tags, format.MetricMetaTag{Name: "s2"}, format.MetricMetaTag{Name: "s3"}, format.MetricMetaTag{Name: "n4", RawKind: "int"})
+		}
 		ev, err := metajournal.EventFromMetricMeta(mv, "")
 		if err != nil {
 			panic(err)
